@@ -15,7 +15,7 @@ from ..tlc import TLCError
 
 # violation keys of behaviour modelled beyond the statement of the property (reported, never an alarm)
 BEYOND = ("circuit:",)
-INV = ["SparseIsDefinition", "HermConjIsAdjoint", "IsHermitianIffMatrixIs", "MatrixPauliRoundTrip", "ReverseIsBitReversal", "ExpectationIsQuadraticForm", "TermCircuitIsString"]
+INV = ["SparseIsDefinition", "HermConjIsAdjoint", "IsHermitianIffMatrixIs", "MatrixPauliRoundTrip", "ReverseIsBitReversal", "ExpectationIsQuadraticForm", "TermCircuitIsString", "MatrixOfOperatorRoundTrip"]
 
 
 def state_k(k, nq):
@@ -110,6 +110,13 @@ def check_case(ctx, c, nq):
             for g, nm in ((got, "get_expectation_value"), (got2, "expectation"), (got3, "expectation(column)")):
                 if abs(complex(g) - want) > 1e-9:
                     out.append(("expect", "%s: %s = %s, quadratic form %s" % (desc, nm, g, want)))
+        elif op == "matrixof":
+            m = mat(c["m"])
+            r = get_pauliop_from_matrix(m.tolist())
+            if not close(pc.dense_real(r, nq), m):
+                out.append(("matrixof:roundtrip", "%s: the matrix of the operator (%s), expanded in the Pauli basis and converted back, is not reproduced: %r" % (desc, "Hermitian" if close(m, m.conj().T) else "not Hermitian", r)))
+            elif not pc.canon_close(pc.canon_real(r), pc.canon_abstract(c["res"])):
+                out.append(("matrixof", "%s = %r, specification %s" % (desc, r, pc.show(c["res"]))))
         elif op == "frommatrix":
             d = 2**nq
             k = c["k"] - 1
@@ -130,11 +137,11 @@ def check_case(ctx, c, nq):
 
 def run(ctx):
     quick = ctx.tier == "quick"
-    allops = '{"conj","isherm","sparse","reverse","expect","circuit"}'
+    allops = '{"conj","isherm","sparse","reverse","expect","circuit","matrixof"}'
     runs = [
         ("ops2", dict(NQ=2, Pool="<-PoolC09_2", Ops=allops, Depth=2, ExpandMod=1, Emitting=True)),
         ("frommatrix2", dict(NQ=2, Pool="{S(<<>>)}", Ops='{"frommatrix"}', Depth=2, ExpandMod=1, Emitting=True)),
-        ("ops3", dict(NQ=3, Pool="<-PoolC09_3", Ops='{"conj","isherm","reverse","expect","circuit"}' if quick else allops, Depth=2, ExpandMod=1, Emitting=True)),
+        ("ops3", dict(NQ=3, Pool="<-PoolC09_3", Ops='{"conj","isherm","reverse","expect","circuit","matrixof"}' if quick else allops, Depth=2, ExpandMod=1, Emitting=True)),
     ]
     if not quick:
         runs.append(("frommatrix3", dict(NQ=3, Pool="{S(<<>>)}", Ops='{"frommatrix"}', Depth=2, ExpandMod=1, Emitting=True)))
